@@ -39,29 +39,46 @@ def gen(rng, tier):
     if deliver:
         if mode == "reusable":
             main.append({"op": "reusable", "ex": "A", "kw": {"max_workers": workers, "timeout": timeout or 10.0}})
-        # optional history before saturating: short tasks, idle periods (time-outs), a resize
-        for _ in range(rng.randint(0, 3)):
-            main.append(submit_op("A", fid, dict(id=fid, kind="work", dur=rng.choice([0, 0.01])), []))
-            fid += 1
-        if rng.random() < 0.6:
+        race = timeout and rng.random() < 0.3
+        if race:
+            # "every submit tops the pool back up", also the last one of a burst: the workers have been idle for
+            # (about) their time-out when the burst arrives, and its last submit is delayed at one source line
+            for _ in range(rng.randint(1, 3)):
+                main.append(submit_op("A", fid, dict(id=fid, kind="work", dur=rng.choice([0, 0.01])), []))
+                fid += 1
             main.append({"op": "wait_all"})
-            if timeout and rng.random() < 0.6:
-                # workers have been idle for exactly their time-out when the saturating burst arrives
-                main.append({"op": "sleep", "d": timeout + rng.choice([0.0, 0.0, -0.001, 0.001])})
-            else:
-                main.append({"op": "sleep", "d": rng.choice([0.01, 0.5, 12.0])})
-        if mode == "reusable" and rng.random() < 0.5:
-            workers = rng.randint(1, 4)
-            main.append({"op": "reusable", "ex": "A", "kw": {"max_workers": workers, "timeout": timeout or 10.0}})
-        extra = rng.randint(0, 3)
+            main.append({"op": "sleep", "d": max(0.0, timeout + rng.choice([0.0, 0.0, -0.0005, -0.001]))})
+            extra = rng.choice([0, 0, 1])
+        else:
+            # optional history before saturating: short tasks, idle periods (time-outs), a resize
+            for _ in range(rng.randint(0, 3)):
+                main.append(submit_op("A", fid, dict(id=fid, kind="work", dur=rng.choice([0, 0.01])), []))
+                fid += 1
+            if rng.random() < 0.6:
+                main.append({"op": "wait_all"})
+                if timeout and rng.random() < 0.6:
+                    # workers have been idle for exactly their time-out when the saturating burst arrives
+                    main.append({"op": "sleep", "d": timeout + rng.choice([0.0, 0.0, -0.001, 0.001])})
+                else:
+                    main.append({"op": "sleep", "d": rng.choice([0.01, 0.5, 12.0])})
+            if mode == "reusable" and rng.random() < 0.5:
+                workers = rng.randint(1, 4)
+                main.append({"op": "reusable", "ex": "A", "kw": {"max_workers": workers, "timeout": timeout or 10.0}})
+            extra = rng.randint(0, 3)
         for _ in range(workers + extra):
             main.append(dict(submit_op("A", fid, dict(id=fid, kind="work", dur=100.0, sat=True), []), keep=True))
             fid += 1
+        if race:
+            main[-1]["arm"] = True
         main.append({"op": "wait_all"})
         main.append({"op": "shutdown", "ex": "A", "wait": True})
         kn = gen_knobs(rng, tier)
         kn["J"] = min(kn["J"], 1.0)     # delivery is stated for scheduling delays far below the 100 s task length
-        if rng.random() < 0.35 and not kn.get("pct") and not kn.get("pct_at"):
+        if race:
+            kn.pop("hot", None), kn.pop("pct_at", None)
+            kn["pct"] = 0
+            kn["line_at"] = {"func": "submit", "n": rng.randint(1, 30), "armed": True}
+        elif rng.random() < 0.35 and not kn.get("pct") and not kn.get("pct_at"):
             # "every submit tops the pool back up": delay the submitting or the managing thread at one line
             kn.pop("hot", None)
             kn["line_at"] = {"func": rng.choice(["submit", "submit", "process_result_item", "_adjust_process_count",
